@@ -7,6 +7,7 @@ import Switcher.Model.Device
 import Switcher.Model.Sched
 import Switcher.Model.Api
 import Switcher.Model.Bridge
+import Switcher.Model.Life
 open Spec Wire Model
 
 def showPyText : Py (List Char) → String
@@ -98,6 +99,19 @@ def showRecs (recs : List SchedRec) : String :=
   if recs.isEmpty then "-" else ";".intercalate
     ((recs.mergeSort (fun a b => a.id ≤ b.id)).map (fun r =>
       s!"{r.id},{if r.recurring then 1 else 0},{showDays (r.days.mergeSort (· ≤ ·))},{String.ofList r.start},{String.ofList r.stop},{String.ofList r.duration},{encText r.display}"))
+
+def goBridge (ports : List Nat) (s : BridgeState) : List BridgeAct → List String
+  | [] => []
+  | a :: rest =>
+    let (s', o) := bridgeStep s a
+    (o.text.replace " " "_" ++ ":" ++ (if s'.running then "1" else "0") ++ ":" ++
+      String.ofList (ports.map (fun p => if s'.listening.contains p then '1' else '0'))) :: goBridge ports s' rest
+
+def goClient (s : ClientState) : List ClientAct → List String
+  | [] => []
+  | a :: rest =>
+    let (s', o) := clientStep s a
+    (o.text.replace " " "_" ++ ":" ++ (if s'.connected then "1" else "0") ++ ":" ++ toString s'.openSocks.length) :: goClient s' rest
 
 def drive : List String → String
   | ["sign", p] =>
@@ -192,6 +206,30 @@ def drive : List String → String
     | some irs => match mkRemote irs with
       | .error e => "ctor-raise " ++ e.name
       | .ok r => s!"caps modes={",".intercalate r.supportedModes} min={r.minTemp} max={r.maxTemp} toggle={if r.onOffType then 1 else 0} sepswing={if r.separatedSwing then 1 else 0} id={encText r.remoteId}"
+    | none => "bad-arg"
+  | "blife" :: n :: acts =>          -- bridge life cycle on ports 0..n-1
+    match nat? n with
+    | some n =>
+      let parse (a : String) : Option BridgeAct :=
+        if a == "start" || a == "enter" then some .start else if a == "stop" || a == "leave" then some .stop
+        else match a.splitOn ":" with
+          | ["send", i] => i.toNat?.map .send
+          | ["occ", i] => i.toNat?.map .occupy
+          | ["rel", i] => i.toNat?.map .release
+          | _ => none
+      match acts.mapM parse with
+      | some as =>
+        " ".intercalate (goBridge (List.range n) (bridgeInit (List.range n)) as)
+      | none => "bad-arg"
+    | none => "bad-arg"
+  | "clife" :: acts =>
+    let parse (a : String) : Option ClientAct :=
+      if a == "cok" then some .connectOk else if a == "cref" then some .connectRefused else if a == "op" then some .opOk
+      else if a == "opx" then some .opRaises else if a == "disc" then some .disconnect else if a == "with" then some (.withBody false)
+      else if a == "withx" then some (.withBody true) else none
+    match acts.mapM parse with
+    | some as =>
+      " ".intercalate (goClient clientInit as)
     | none => "bad-arg"
   | "op" :: rest => runOpLine rest
   | _ => "bad-op"
